@@ -358,9 +358,10 @@ impl InternerGuard<'_> {
         if let Edges::Boolean { high, low } = node.children {
             if let Some(value) = f(&node.var) {
                 // Restrict this variable to the given output by merging it
-                // with the relevant child.
+                // with the relevant child, which may itself contain restricted
+                // variables.
                 let node = if value { high } else { low };
-                return node.negate(i);
+                return self.restrict(node.negate(i), f);
             }
         }
 
